@@ -111,15 +111,15 @@ func filterQuery(q string, prefixes []string, notPrefixes []string) (string, []i
 	conds := []string{}
 	args := []interface{}{}
 	for _, s := range prefixes {
-		conds = append(conds, "name LIKE ?")
-		args = append(args, s+"%")
+		conds = append(conds, "substr(name, 1, length(?)) = ?")
+		args = append(args, s, s)
 	}
 	if len(conds) > 1 {
 		conds = []string{fmt.Sprintf("(%s)", strings.Join(conds, " OR "))}
 	}
 	for _, s := range notPrefixes {
-		conds = append(conds, "name NOT LIKE ?")
-		args = append(args, s+"%")
+		conds = append(conds, "substr(name, 1, length(?)) != ?")
+		args = append(args, s, s)
 	}
 	if len(conds) > 0 {
 		q = fmt.Sprintf("%s WHERE %s", q, strings.Join(conds, " AND "))
